@@ -35,6 +35,9 @@ KNOWN_FILE = os.path.join(ROOT, 'known_findings.json')
 
 CHECKS = {
     'C06': 'dst.checks.c06',
+    'C13': 'dst.checks.c13',
+    'C14': 'dst.checks.c14',
+    'C15': 'dst.checks.c15',
 }
 
 DEFAULT_SEEDS = {'quick': 400, 'thorough': 20000}
